@@ -11,6 +11,12 @@ def f32bits(x):
 NAN = 0x7ff8000000000001
 SPECIAL_VALUES = [0x0000000000000000, 0x8000000000000000, 0x7ff0000000000000, 0xfff0000000000000,
                   0x0000000000000001, fbits(0.1), fbits(1e300), fbits(-2.5), fbits(123456.789012345678)]
+# doubles that are exactly float32 numbers (their shortest float32 decimal is shorter than their
+# shortest float64 decimal) and large integers with few significant bits
+def _f32d(x):
+    return fbits(struct.unpack('>f', struct.pack('>f', x))[0])
+F32_VALUES = [_f32d(0.1), _f32d(98.6), _f32d(-0.3), _f32d(1e10), _f32d(3.4e38), _f32d(1.17e-38), fbits(2.0 ** 31), fbits(2.0 ** 32), fbits(2.0 ** 40),
+              fbits(-(2.0 ** 63)), fbits(2.0 ** 24 + 2), fbits(16777217.0), fbits(2.0 ** 53), fbits(2.0 ** 53 + 2), fbits(1e21), fbits(1e22), fbits(1e23), fbits(5e-324)]
 NAN_VALUES = [0x7ff8000000000001, 0x7ff0000000000001, 0xfff8000000000000, 0x7fffffffffffffff]
 
 # float32 bit patterns of valid xFilesFactors, boundary first
@@ -40,8 +46,10 @@ def value(rnd, nan_ok=True):
     r = rnd.random()
     if r < 0.65:
         return small_value(rnd)
-    if r < 0.8:
+    if r < 0.77:
         return rnd.pick(SPECIAL_VALUES)
+    if r < 0.8:
+        return rnd.pick(F32_VALUES)
     if r < 0.86 and nan_ok:
         return rnd.pick(NAN_VALUES)
     if r < 0.93:
